@@ -314,6 +314,7 @@ def check_ood(case):
         _never_finite(o, 'point inside the inert obstacle raises', lambda: cat.quiet(s, np.array([[0.5 * u * 3, 0.5 * v * 3], [4.0, 4.0]]), 0.0), k)
     elif k == 'piston-t>tmax':
         s = cat.quiet(cat.cls_of(cat.PISTON))
+        cat.quiet(s, np.array([0.1, 2.0]), 0.2 / s.wv_el * (1.01 + u))        # (valid on this longer grid: the same object, used before)
         _never_finite(o, 'time after the elastic wave left the domain raises', lambda: cat.quiet(s, np.array([0.1, 0.2]), 0.2 / s.wv_el * (1.01 + u)), k)
     elif k == 'blake-negative-radius':
         import warnings
